@@ -56,7 +56,7 @@ static int corpus_load(void) {
     corpus_loaded = 1; return 0;
 }
 
-enum { CP_CROSS, CP_EMAIL, CP_LOCAL, CP_DOMAIN, CP_LITERAL, CP_TLD, CP_IDN, CP_BYTES, CP_LONG, CP_LONGIDN, CP_ALTDOT, CP_LABELLEN, CP_MAXLIT, CP_LPXDOM, CP_WHOLEDOM, CP_DEPTH, CP_EMBED, CP_SCALARS, CP_N };
+enum { CP_CROSS, CP_EMAIL, CP_LOCAL, CP_DOMAIN, CP_LITERAL, CP_TLD, CP_IDN, CP_BYTES, CP_LONG, CP_LONGIDN, CP_ALTDOT, CP_LABELLEN, CP_MAXLIT, CP_LPXDOM, CP_WHOLEDOM, CP_DEPTH, CP_EMBED, CP_SUBST, CP_SHORTLAB, CP_SCALARS, CP_N };
 static const char *corpus_name(int i) {
     static const char *n[] = {
         "cross: all strings over {a 1 . - @ [ ] : SP ( 0x01 #}",
@@ -76,6 +76,8 @@ static const char *corpus_name(int i) {
         "wholedom: every code point of U+0080-2FFF, U+FE00-FFFF, U+1BCA0-1BCAF, U+E0000-E01FF (thorough: every scalar) as the whole domain, doubled, as both labels, rooted, as last label",
         "depth: 24 suffixes (reserved names, reserved look-alikes, table rows of 6 classes, unlisted) behind every sequence of 0-4 labels over {a, test, example, com, xn--p1ai, invalid}",
         "embed: every string compiled into the library objects as last label, second-level label, and every ordered pair of them as the last two labels",
+        "subst: every byte value substituted at every position of 14 complete addresses",
+        "shortlab: every label of 1-2 characters and every 3-character label starting with a digit over [a-z0-9-], lower and upper case, in 4 positions",
         "scalars: every non-ASCII Unicode scalar value as an atom character, quoted (alone, after and before a space) and in a domain label" };
     return n[i];
 }
@@ -107,6 +109,8 @@ static long corpus_shards(int i) {
     case CP_LPXDOM: return 40;
     case CP_DEPTH: return 24;
     case CP_EMBED: return (NEMB + 7) / 8;
+    case CP_SUBST: return 14;
+    case CP_SHORTLAB: return 37;
     case CP_WHOLEDOM: return CORPUS_DEEP ? 0x110000 / 0x400 : 15;
     case CP_SCALARS: return 0x110000 / 0x1000;
     }
@@ -328,6 +332,28 @@ static void corpus_run(int ph, long shard, emit_fn emit, void *arg) {
             u[l] = 0;
             c_emit_str(emit, arg, "x@%s", u); c_emit_str(emit, arg, "x@%s%s", u, u); c_emit_str(emit, arg, "x@%s.%s", u, u); c_emit_str(emit, arg, "x@%s.", u); c_emit_str(emit, arg, "x@a.%s", u);
         }
+    } break;
+    case CP_SUBST: {       /* a keyword, tag, separator or quote replaced by a look-alike byte is only reached by substitution */
+        static const char *const B[14] = { "x@[IPv6:::1]", "x@[ipv6:1:2:3:4:5:6:7:8]", "x@[IPv6:1:2:3:4:5:6:1.2.3.4]", "x@[1.2.3.4]", "x@[::1]", "\"a b\"@c.de", "a.b@c-d.ef", "x@xn--p1ai.com",
+            "x@example.com", "x@a.test", "\"a\\\"b\".c@d.org", "x@localhost", "x@\xd0\xb6.\xd1\x80\xd1\x84", "\xd0\xb6@a.museum" };
+        const char *t = B[shard]; size_t n = strlen(t); unsigned char u[64];
+        for (size_t p = 0; p < n; p++) for (int b = 1; b < 256; b++) { if (b == (unsigned char)t[p]) continue; memcpy(u, t, n); u[p] = (unsigned char)b; emit(u, n, arg); }
+    } break;
+    case CP_SHORTLAB: {    /* short labels with a meaning somewhere else: 0x1, 0b1, 1e9, 10, ff, -1 ... as the whole name, first label, last label */
+        static const char AL[] = "abcdefghijklmnopqrstuvwxyz0123456789-"; char L[3][8]; int nl = 0;
+        char c0 = AL[shard];
+        snprintf(L[0], 8, "%c", c0); c_emit_str(emit, arg, "x@%s", L[0]); c_emit_str(emit, arg, "x@%s.com", L[0]); c_emit_str(emit, arg, "x@a.%s", L[0]);
+        for (int b = 0; b < 37; b++) {
+            char l2[4] = { c0, AL[b], 0, 0 }, U2[4] = { (char)toupper((unsigned char)c0), (char)toupper((unsigned char)AL[b]), 0, 0 };
+            c_emit_str(emit, arg, "x@%s", l2); c_emit_str(emit, arg, "x@%s.com", l2); c_emit_str(emit, arg, "x@1.%s", l2); c_emit_str(emit, arg, "x@%s.0.0.1", l2);
+            c_emit_str(emit, arg, "x@%s", U2); c_emit_str(emit, arg, "x@%s.com", U2); c_emit_str(emit, arg, "x@1.%s", U2); c_emit_str(emit, arg, "x@%s.0.0.1", U2);
+            if (c0 >= '0' && c0 <= '9') for (int c = 0; c < 37; c++) {
+                char l3[4] = { c0, AL[b], AL[c], 0 }, U3[4] = { c0, (char)toupper((unsigned char)AL[b]), (char)toupper((unsigned char)AL[c]), 0 };
+                c_emit_str(emit, arg, "x@%s", l3); c_emit_str(emit, arg, "x@%s.com", l3); c_emit_str(emit, arg, "x@1.%s", l3); c_emit_str(emit, arg, "x@%s.0.0.1", l3);
+                c_emit_str(emit, arg, "x@%s", U3); c_emit_str(emit, arg, "x@%s.com", U3); c_emit_str(emit, arg, "x@1.%s", U3); c_emit_str(emit, arg, "x@%s.0.0.1", U3);
+            }
+        }
+        (void)L; (void)nl;
     } break;
     case CP_EMBED: {       /* a name the library treats specially is spelled somewhere in its objects: every embedded string in the places where names are looked at */
         for (long i = shard * 8; i < shard * 8 + 8 && i < NEMB; i++) {
